@@ -11,7 +11,7 @@ import SparseSpace.Drive.Util
     benefit <error> <evaluations>                   → <p/q>
     totals <errors> <benefits>                      → <total> <maxbenefit>
     cache <batch>|<batch>|...                       → [n1,n2,..]   sizes after each call; batch = point;point;.. , point = x,y,..
-    inceval <acc> <startNew> <areas>                → <acc'>        (extend–split discipline, one evaluate_operation)
+    inceval <acc> <startNew> <areas>                → <acc'> <startNew'>   (extend–split discipline, one evaluate_operation)
     screval <areas>                                 → <acc'>        (dimension-wise discipline)
 
     stream = err:pts:sur;err:pts:sur;...   rationals as p/q
@@ -118,7 +118,8 @@ def step (s : Unit) (line : String) : Unit × String :=
   | ["inceval", acc, sn, areas] =>
     match parseRat? acc, parseNat? sn, parseRatVec? areas with
     | some acc, some sn, some areas =>
-      (s, fmtRat (incEval ⟨acc, areas, sn, areas.map fun _ => 0, [], none⟩).1.acc)
+      let r := (incEval ⟨acc, areas, sn, areas.map fun _ => 0, [], none⟩).1
+      (s, fmtRat r.acc ++ " " ++ toString r.startNew)
     | _, _, _ => (s, "bad-op")
   | ["screval", areas] =>
     match parseRatVec? areas with
